@@ -457,7 +457,9 @@ func BuildGroup(query *Query, group *sqlparser.GroupBy) error {
 	for _, i := range group.Exprs {
 		qualifier, name, err := BuildColumnName(i)
 		if err != nil {
-			return nil
+			// an item that is not a column cannot be grouped by; saying so
+			// beats silently dropping it and every item after it
+			return err
 		}
 		if len(qualifier) == 0 {
 			query.groupDefinition[name] = true
